@@ -217,8 +217,11 @@ def run(ctx):
                 if c.name in ("PlainSizeParser::decode_size", "ShakeSizeParser::decode_size"):
                     ctx.ob("T1d", b.defp, f"unauthenticated-length:{c.name}", loc(t["sp"]), False,
                            "chunk length is taken from the wire without authentication (VMess Plain / Shake length modes)")
+    from .common import aead_roles
+    _auth_types, _ = aead_roles(prog)
     for b in bodies:
-        if last_seg(b.impl_self_def or "") == "Authenticator" and b.method == "decode_size" and b.root == b.defp:
+        # role: the authenticator method that opens the sealed length block and reads the length out of it
+        if (b.impl_self_def or "") in _auth_types and b.root == b.defp and any(is_open(c) for (_, c, _) in b.calls()) and any(c.name == "Buf::get_u16" for (_, c, _) in b.calls()):
             opens = [(blk, c, t) for (blk, c, t) in b.calls() if is_open(c)]
             reads = [(blk, c, t) for (blk, c, t) in b.calls() if c.name in ("Buf::get_u16",)]
             ok = bool(opens) and bool(reads) and all(success_edge_dominates(b, ob, rb, need_levels=[0])[0] for (ob, _, _) in opens for (rb, _, _) in reads)
